@@ -59,3 +59,106 @@ def lines_parsed_independently(ctx, rule):
         extra = [e.kind for e in p.events if e.kind in ("setattr_class", "global_decl", "memo_hit", "setitem_unknown", "loop_carried_store")]
         ctx.check(ok and not extra, rule, "parse_file_lines", f"result={v!r} conds={p.cond_labels()[:3]} state={extra}"[:220],
                   "every line is parsed on its own: the result list is parse_line(line) for each line, in order")
+
+
+BAD_LIST_FLAGS = ("filters", "order", "sliced", "dedup", "mixed", "prefix_items", "inserted", "appended", "concat")
+
+
+def operands_from_operand_group(ctx, rule, I, sites):
+    """at every Instruction(...) built by the line parser the operand list is either empty (operand-less forms) or the
+    normaliser's 1:1 image of re.split(<splitter>, <group k of the line regex that also gave the address>): no element
+    from any other source (symbol annotation, comment, raw bytes) is appended, prepended or mixed in"""
+    n = 0
+    for site in sites:
+        v = site.fields.get("operands")
+        a = v.absorbed if isinstance(v, ListV) else v
+        if isinstance(v, ListV) and v.absorbed is None:
+            ok = not v.items
+            why = f"literal list of {len(v.items)} element(s)"
+        elif isinstance(a, AbsList):
+            flags = sorted(k for k in BAD_LIST_FLAGS if a.flags.get(k))
+            addr = origin(I, site.fields.get("addr"))
+            subj = a.flags.get("subject")
+            so = origin(I, subj) if subj is not None else ("other", "", None)
+            ok = (not flags and bool(a.flags.get("resplit")) and so[0] == "group" and addr[0] == "group" and so[1] == addr[1]
+                  and not (isinstance(v, ListV) and v.items))
+            why = f"flags={flags} appended={a.flags.get('appended')} source={a.src[:60]}"
+        else:
+            ok, why = False, repr(v)[:100]
+        n += 1
+        ctx.check(ok, rule, site.where.split(" ")[-1].split(":")[0].split("/")[-1] + ":Instruction(operands=...)", why[:220],
+                  "the operand list is the normalised split of the operand group of the same line match, nothing added")
+    return n
+
+
+def site_field_kinds(ctx, rule, I, sites):
+    """every Instruction(...) the line parser builds: addr is a group of the line regex whose class is hex digits only,
+    mnemonic is a literal or a group whose class admits letters beyond hex, operands is a list"""
+    n = 0
+    for site in sites:
+        f = site.fields
+        a, m, o = origin(I, f.get("addr")), origin(I, f.get("mnemonic")), f.get("operands")
+        bad = []
+        if a[0] != "group":
+            bad.append(f"addr is {a[0]}:{str(a[1])[:40]}")
+        else:
+            g = LineShape(a[1]).group(a[2])
+            c = token_class(g) if g is not None else None
+            if c is None or c.negated or c.cats or not all(ch in HEX for ch in c.chars) or not all(
+                    x in HEX and y in HEX for x, y in c.ranges):
+                bad.append(f"addr group {a[2]} is not a hex-digit token")
+        if m[0] == "group":
+            g = LineShape(m[1]).group(m[2])
+            c = token_class(g) if g is not None else None
+            if c is None or not all(c.matches(ch) for ch in "movsxqzl"):
+                bad.append(f"mnemonic group {m[2]} does not admit mnemonic letters")
+            if a[0] == "group" and (a[1] != m[1] or a[2] >= m[2]):
+                bad.append("mnemonic group does not follow the address group of the same line regex")
+        elif m[0] != "literal":
+            bad.append(f"mnemonic is {m[0]}:{str(m[1])[:40]}")
+        if not isinstance(o, (ListV, AbsList)):
+            bad.append(f"operands is not a list: {o!r}"[:60])
+        n += 1
+        ctx.check(not bad, rule, site.where.split(" ")[-1].split(":")[0].split("/")[-1] + ":Instruction(...)", ";".join(bad)[:220],
+                  "addr <- hex address group, mnemonic <- literal or the following token group, operands <- a list")
+    return n
+
+
+def forwarding_rule(ctx, rule):
+    """ObjdumpParserManual.parse(text, consumer): the lines handed to parse_line are the text's own lines (text.split('\\n')
+    or text.splitlines(), nothing rewritten before), every parsed line that is an Instruction is forwarded once, in line
+    order, and nothing else (config, other conditions) decides"""
+    from ..models import make_interp
+    from ..values import Hole, Str, Unknown
+    opm = ctx.p.find_class("ObjdumpParserManual")
+
+    def parse_line_summary(I, func, self_val, args, kwargs, node, fr):
+        a = args[0] if args else kwargs.get("line")
+        return Unknown(I.run.new_tag("parsed"), {"expr": f"parse_line({I.expr_of(a)})", "not_none": True})
+    I2 = make_interp(ctx.p, {"parse_line": parse_line_summary})
+
+    def thunk(I):
+        o = I.construct(opm, [], {}, None, None)
+        cons = Unknown("CONSUMER", {"truthy": True, "not_none": True})
+        return I.call_func(opm.find_method("parse"), [Str((Hole("FILE", "text", True),)), cons], {}, o, None, None)
+    n = 0
+    for p in I2.explore(thunk):
+        n += 1
+        if p.kind != "return":
+            ctx.fail(rule, "ObjdumpParserManual.parse", f"raises {p.exc!r}"[:80], "parse raises")
+            continue
+        calls = [e for e in p.events if e.kind == "call_unknown" and e.target.endswith("consume_instruction")]
+        cfg = [e for e in p.events if e.kind == "cfg_get"]
+        args = [I2.expr_of(c.args[0]) for c in calls if c.args]
+        # the per-element decision: either a comprehension filter (kept as a flag of the abstract list) or an
+        # isinstance test in the loop body (a path assumption); nothing else may take part
+        other = [(k, v) for k, v, _ in p.conds if not (isinstance(k, tuple) and k[0] == "isinstance" and k[-1] == "Instruction")
+                 and not (isinstance(k, tuple) and k[0] == "truth")]
+        not_instr = any(isinstance(k, tuple) and k[0] == "isinstance" and k[-1] == "Instruction" and v is False for k, v, _ in p.conds)
+        empty = any(isinstance(k, tuple) and k[0] == "truth" and v is False for k, v, _ in p.conds)
+        wants = [[]] if (not_instr or empty) else [["parse_line(<<FILE>.split('\\n')[*]>)"], ["parse_line(<<FILE>.splitlines()[*]>)"]]
+        ok = args in wants and not cfg and not other
+        ctx.check(ok, rule, "ObjdumpParserManual.parse",
+                  f"consumed={args} expected={wants[0]} config-reads={[c.key for c in cfg]} other-conditions={[str(k)[:40] for k, _ in other]}"[:240],
+                  "every parsed line that is an Instruction is forwarded once, in line order; nothing else decides")
+    return n
